@@ -101,8 +101,15 @@ func main() {
 				// variant mode: print failing instances only
 				failing := 0
 				c.applyFloors()
+				known := loadKnown(*verif + "/known_findings.jsonl")
 				for _, in := range c.Instances {
-					if !in.OK {
+					isKnown := false
+					for _, k := range known {
+						if k.Status == "known" && k.Property == c.Prop && k.Rule == in.Rule && k.Construct == in.Construct {
+							isKnown = true
+						}
+					}
+					if !in.OK && !isKnown {
 						failing++
 						fmt.Printf("FAIL %s [%s] %s %s\n", in.Rule, in.Construct, in.Pos, in.Detail)
 					}
